@@ -208,9 +208,14 @@ func (c *Controller) HandleVisitor(m *msg.NatHoleVisitor, transporter transport.
 		delete(c.sessions, sid)
 	}()
 
+	notified := false
 	if err := errors.PanicToError(func() {
-		clientCfg.sidCh <- sid
-	}); err != nil {
+		select {
+		case clientCfg.sidCh <- sid:
+			notified = true
+		case <-time.After(time.Duration(NatHoleTimeout) * time.Second):
+		}
+	}); err != nil || !notified {
 		return
 	}
 
